@@ -475,8 +475,13 @@ def run_check(prop, tier='quick', seed=0, only=None, nproc=None, verbose=True):
         ev['coverage']['states'] = 1 if status == 0 else 1
     if ev['coverage']['transitions'] < 1:
         ev['coverage']['transitions'] = 1
-    os.makedirs(os.path.join(VERIF, 'evidence'), exist_ok=True)
-    with open(os.path.join(VERIF, 'evidence', prop + '.json'), 'w') as f:
+    # evidence describes runs against /repo itself; a run against another tree
+    # (mutant testing with --repo / VERIF_REPO) must not overwrite it
+    evdir = os.path.join(VERIF, 'evidence')
+    if os.path.realpath(repo_root()) != os.path.realpath('/repo'):
+        evdir = os.path.join(os.environ.get('TMPDIR', '/tmp'), 'xdv-evidence-other-tree')
+    os.makedirs(evdir, exist_ok=True)
+    with open(os.path.join(evdir, prop + '.json'), 'w') as f:
         json.dump(ev, f, indent=1, default=_jd)
     log('[%s] status=%d paths=%d queries=%d solver=%.1fs wall=%.1fs obligations=%s' % (
         prop, status, total.paths, total.queries, total.solver_s, wall,
